@@ -31,6 +31,11 @@ Theorem C13_clock_deadline : forall w a,
   ga_movetime a = no_movetime -> in_range (mover_left w a) -> in_range (mover_inc w a) -> 1 <= ga_mtg a ->
   allotted_ns w a = Ok (1000000 * alloc (mover_left w a) (mover_inc w a) (ga_mtg a)).
 Proof. exact allotted_clock. Qed.
+(* the marker for "no movetime argument" (the engine's flag moveTimeGiven = false) is not a value any argument text can produce:
+   after parsing, the field is the marker or an int64 *)
+Theorem C13_marker_is_no_argument : forall toks a, parse_go toks go_defaults = Some a ->
+  ga_movetime a = no_movetime \/ -9223372036854775808 <= ga_movetime a <= 9223372036854775807.
+Proof. exact parsed_movetime_marker. Qed.
 (* whatever text follows `go`, an accepted command never divides by zero *)
 Theorem C13_parsed_mtg : forall toks a, parse_go toks go_defaults = Some a -> 1 <= ga_mtg a.
 Proof. intros toks a. exact (parse_go_mtg toks go_defaults a go_defaults_mtg). Qed.
@@ -51,6 +56,7 @@ Print Assumptions C13_mono_left.
 Print Assumptions C13_mono_inc.
 Print Assumptions C13_anti_mtg.
 Print Assumptions C13_movetime.
+Print Assumptions C13_marker_is_no_argument.
 Print Assumptions C13_clock_deadline.
 Print Assumptions C13_parsed_mtg.
 Print Assumptions C13_no_panic.
